@@ -627,3 +627,76 @@ func (s *Sentinels) applyCellKill(st cellState, bf BoolFact, cellOf func(ssa.Val
 // CalleesOf exposes the call resolution (static, interface implementations in
 // production packages, func values).
 func CalleesOf(s *Sentinels, cc *ssa.CallCommon) []*ssa.Function { return s.callees(cc) }
+
+
+// WithinOnly reports whether fn executes only inside the dynamic extent of a function satisfying pred: fn satisfies
+// it, or fn is a closure that is only called / deferred / run where it is made and its parent does, or fn is a plain
+// function that is never used as a value and every one of its static call sites does (depth-limited). It is how rules say
+// "only X may do this" without naming the helper functions a refactoring may put in between.
+func (p *Prog) WithinOnly(fn *ssa.Function, pred func(*ssa.Function) bool, depth int) bool {
+	if fn == nil || depth < 0 {
+		return false
+	}
+	if pred(fn) {
+		return true
+	}
+	if par := fn.Parent(); par != nil {
+		// a closure: it must not escape its parent other than by being called, deferred or started there
+		escapes := false
+		for _, g := range WithClosures(par) {
+			EachInstr(g, func(in ssa.Instruction) {
+				mc, ok := in.(*ssa.MakeClosure)
+				if !ok || mc.Fn != ssa.Value(fn) || mc.Referrers() == nil {
+					return
+				}
+				for _, r := range *mc.Referrers() {
+					switch x := r.(type) {
+					case *ssa.DebugRef:
+					case ssa.CallInstruction:
+						if x.Common().Value != ssa.Value(mc) {
+							escapes = true // passed as an argument
+						}
+					default:
+						escapes = true
+					}
+				}
+			})
+		}
+		if escapes {
+			return false
+		}
+		return p.WithinOnly(par, pred, depth-1)
+	}
+	if p.addrTakenFn(fn) {
+		return false
+	}
+	sites := p.StaticCallSites(fn)
+	if len(sites) == 0 {
+		return false
+	}
+	for _, s := range sites {
+		if !p.WithinOnly(s.Parent(), pred, depth-1) {
+			return false
+		}
+	}
+	return true
+}
+
+// addrTakenFn: the function is used as a value somewhere in pandora (stored, passed, bound).
+func (p *Prog) addrTakenFn(fn *ssa.Function) bool {
+	taken := false
+	for _, g := range p.pandoraFuncs() {
+		EachInstr(g, func(in ssa.Instruction) {
+			for _, op := range in.Operands(nil) {
+				if op == nil || *op != ssa.Value(fn) {
+					continue
+				}
+				if ci, ok := in.(ssa.CallInstruction); ok && ci.Common().Value == ssa.Value(fn) {
+					continue
+				}
+				taken = true
+			}
+		})
+	}
+	return taken
+}
